@@ -50,14 +50,21 @@ META = {
             "list x several call recipes x random lshape (rank 0..3, extents 0..3) x rotating ltype/dtype; regime: a fixed corner "
             "corpus (18 special-regime + 5 ordinary items per ltype) in ONE batch, several layouts, every unary op and binary "
             "site vs the same function on each item alone, identical for every seed, plus random permutations; retain: random "
-            "bodies (calls, nesting <= 3, raise at a random point) + exhaustive small bodies. A case is non-trivial when the "
+            "bodies (calls, nesting <= 3, raise at a random point) + exhaustive small bodies. round 5: a process-start baseline (values and gradients of every "
+            "unary op / binary site on 3 fixed items, both dtypes) re-evaluated after every op ran on single-item / all-1 batches forward and "
+            "backward, and again after the whole run; every handled function and the class's own container operations on int64/32/16/8, uint8, "
+            "bool, float16, bfloat16, complex64; batches of 2^17+37 items (quick: all cheap entries, a sixth of the expensive ones per seed; "
+            "thorough: also 2^18+1, 2^18+37, 2^20+1 for every entry). A case is non-trivial when the "
             "result has >= 2 items or an empty/scalar batch branch is exercised; distinct by (stream, op/function, ltype, "
             "lshapes, dtype).",
     "trusted": ["torch's own shape functions / broadcasting (external kernel): their index maps are model definitions "
                 "compared with the real functions on every run",
                 "the syntactic alias rules of harness/extract.py behind lean/Pose/Gen/Purity.lean (conservative may-alias "
                 "analysis of the anchored sources; `source_purity` is a theorem about that table)",
-                "python `ast` extraction of HANDLED_FUNCTIONS (harness/extract.py)"],
+                "python `ast` extraction of HANDLED_FUNCTIONS (harness/extract.py)",
+                "the syntactic shared-state table lean/Pose/Gen/Globals.lean (cached tensor factories, module-/class-level tensor constants "
+                "and containers, in-place writes through their possible aliases, mutable defaults): `shared_state_clean` is a theorem about "
+                "that table, the extractor is trusted"],
     "assumptions": ["axioms of the theorems: ⊆ {propext, Classical.choice, Quot.sound}",
                     "retain_restores (code since D44: restoring by saved (module, name, function) triples) needs no hypothesis on the "
                     "table; the pre-D44 policy `homeCur` is kept as the model of the reverted code (policy read from the source)",
